@@ -33,6 +33,7 @@ type Obligation struct {
 	Inputs   map[string]string `json:"model_inputs,omitempty"` // concretisation mode: values of the function's inputs in the model
 	inputs   []inputTerm
 	Vacuity  bool    `json:"vacuity,omitempty"` // expected sat
+	Cover    bool    `json:"cover,omitempty"`   // cover clause: discharged when some member of the clause is satisfiable
 	VacPre   string  `json:"vac_pre,omitempty"` // for a post-call reachability check: name of the matching pre-call check
 	Trivial  bool    `json:"trivial,omitempty"` // goal simplified to true syntactically
 	PathHint string  `json:"path_hint,omitempty"`
